@@ -98,7 +98,7 @@ def plan(tier, seed):
     # the memo of coordinate maps and locate with its memo
     if tier == 'quick':
         jobs['cache'] = ('ApplyCache', dict(cfg='ApplyCache.cfg', coverage=True, workers=1), True)
-        jobs['locate'] = ('Locate', dict(cfg='Locate.cfg', coverage=True, workers=2), True)
+        jobs['locate'] = ('Locate', dict(cfg='Locate.cfg', coverage=True, workers=3), True)
     else:
         jobs['cache'] = ('ApplyCache', dict(cfg='ApplyCache_thorough.cfg', coverage=True, workers=1, timeout=1500), True)
         jobs['locate'] = ('Locate', dict(cfg='Locate_thorough.cfg', coverage=True, workers=8, timeout=1500, heap='8g'), True)
